@@ -1,6 +1,6 @@
 (* C09 - executable model of the compressed column encodings of orso/schema.py
-   (FunctionColumn 358-378, ConstantColumn 381-405, SparseColumn 408-440, RLEColumn 443-487,
-   DictionaryColumn 490-512).  No proofs here.
+   (FunctionColumn 358-378, ConstantColumn 381-405, SparseColumn 408-445, RLEColumn 448-492,
+   DictionaryColumn 495-517).  No proofs here.
 
    Part 1: the codecs over an abstract value type (equality / inequality / order are
            parameters: Python ==, numpy !=, numpy's sort order).
@@ -425,14 +425,17 @@ Definition result_type_same_kind (a b : dtype) : dtype :=
   | _, _ => b
   end.
 
-(* SparseColumn.materialize, lines 428-437: the dtype of the result array.
+(* SparseColumn.materialize, lines 428-441: the dtype of the result array.
    dv = values.dtype, d = default_value *)
 Definition mat_dtype (dv : dtype) (d : val) : result dtype :=
   let dd := dtype_of_scalar d in
   if kind_eqb dd dv then Ok (result_type_same_kind dd dv)
   else if numeric dv && numeric dd then
-    c <- np_cast dv d ;;                              (* values.dtype.type(self.default_value) *)
-    Ok (if np_eqb dv c d then dv else DObj)           (* ... == self.default_value *)
+    match np_cast dv d with                           (* try: values.dtype.type(self.default_value) *)
+    | Ok c => Ok (if np_eqb dv c d then dv else DObj) (*      ... == self.default_value *)
+    | Raise ValueError | Raise OverflowError => Ok DObj   (* except (ValueError, OverflowError): pass *)
+    | Raise e => Raise e
+    end
   else Ok DObj.
 
 (* --- the element-wise functions the harness applies to the stored values --- *)
